@@ -6,7 +6,9 @@ V(S) == [k \in Keys |-> IF \E p \in S : p[1] = k THEN (CHOOSE p \in S : p[1] = k
 O(S) == [k \in {p[1] : p \in S} |-> (CHOOSE p \in S : p[1] = k)[2]]
 NoSnaps == [i \in 1..MaxSnaps |-> NoSnap]
 Snap1(S) == [i \in 1..MaxSnaps |-> IF i = 1 THEN [live |-> TRUE, view |-> V(S)] ELSE NoSnap]
-St(u, o, b, w, sn) == [under |-> u, over |-> o, batch |-> b, bw |-> w, snaps |-> sn]
+St(u, o, b, w, sn) == [under |-> u, over |-> o, batch |-> b, bw |-> w, snaps |-> sn, bprev |-> FALSE]
+\* the overlay has been written by the store's batch object, which was then Reset (and possibly refilled)
+StR(u, o, b, sn) == [under |-> u, over |-> o, batch |-> b, bw |-> FALSE, snaps |-> sn, bprev |-> TRUE]
 
 Full == V({<<kA, "1">>, <<kA0, "">>, <<kAF, "1">>, <<kB, "1">>, <<kF, "">>, <<kFF, "1">>})
 InitsFl == {
@@ -21,7 +23,10 @@ InitsFl == {
   \* clean overlay, written batch, snapshot
   St(V({<<kAF, "1">>, <<kF, "1">>, <<kFF, "">>}), EmptyOver, <<OpPut(kFF, "1")>>, TRUE, Snap1({<<kAF, "1">>})),
   \* a written, not yet reset batch whose keys are still unflushed
-  St(V({<<kA0, "1">>, <<kFF, "">>}), O({<<kA, "1">>, <<kB, "">>, <<kFF, "2">>}), <<OpPut(kA, "1"), OpPut(kFF, "2")>>, TRUE, NoSnaps)
+  St(V({<<kA0, "1">>, <<kFF, "">>}), O({<<kA, "1">>, <<kB, "">>, <<kFF, "2">>}), <<OpPut(kA, "1"), OpPut(kFF, "2")>>, TRUE, NoSnaps),
+  \* the batch object wrote the overlay (values of both lengths, a tombstone), was reset and is being refilled
+  StR(V({<<kA0, "1">>, <<kFF, "">>}), O({<<kA, "1">>, <<kAF, "2">>, <<kB, "">>, <<kF, TOMB>>, <<kFF, "1">>}),
+      <<OpPut(kAF, "1")>>, NoSnaps)
 }
 
 ASSUME BytesSelfCheck
